@@ -748,7 +748,7 @@ class _Generator(Generator):
         return encode_lines, decode_lines
 
     def get_encoded_octet_string_lengths(self, type_, checker):
-        with self.members_backtrace_push(type_.name):
+        with self.members_backtrace_push(canonical(type_.name)):
             if checker.minimum == checker.maximum:
 
                 return [checker.maximum]
@@ -956,9 +956,10 @@ class _Generator(Generator):
         return encode_lines, decode_lines
 
     def get_encoded_enumerated_length(self, type_):
-        with self.members_backtrace_push(type_.name):
-            return ['(uint32_t)enumerated_value_length((int32_t)src_p->{})'.format(
-                self.location_inner()), 1]
+        with self.members_backtrace_push(canonical(type_.name)):
+            return ['(uint32_t)enumerated_value_length((int32_t)src_p->{}{})'.format(
+                self.location_inner(),
+                '.value' if is_user_type(type_) else ''), 1]
 
     def format_sequence_of_inner(self, type_, checker):
         unique_number_of_length_bytes = self.add_unique_variable(
